@@ -740,13 +740,13 @@ pub fn parent_main(prop: &dyn Property, args: ParentArgs) -> i32 {
     }
 
     // ---- open known findings of this property: do they still fail? ---------
+    // (each replay in its own worker, in parallel: some of them run up to a
+    // deterministic attempt bound)
     {
-        let mut p = None;
+        let mut handles = vec![];
         for f in &my_known {
             let kid = f.get("id").and_then(|s| s.as_str()).unwrap_or("?").to_string();
             let what = f.get("what").and_then(|s| s.as_str()).unwrap_or("").to_string();
-            let mut still = false;
-            let mut checked = 0;
             let mut replays: Vec<String> = vec![];
             if let Some(r) = f.get("replay").and_then(|s| s.as_str()) {
                 replays.push(r.to_string());
@@ -758,6 +758,7 @@ pub fn parent_main(prop: &dyn Property, args: ParentArgs) -> i32 {
                     }
                 }
             }
+            let mut hs = vec![];
             for r in replays {
                 let path = if Path::new(&r).is_absolute() { PathBuf::from(&r) } else { args.known_file.parent().unwrap_or(Path::new(".")).join(&r) };
                 let Some(v) = read_json(&path) else { continue };
@@ -770,17 +771,26 @@ pub fn parent_main(prop: &dyn Property, args: ParentArgs) -> i32 {
                     }
                 }
                 let Some(data) = v.get("case_hex").and_then(|s| s.as_str()).and_then(unhex) else { continue };
-                let o = run_case(&sp, true, &mut p, &data, false, limit_s);
-                checked += 1;
-                if !o.ok && o.inconclusive.is_none() {
-                    still = true;
-                }
+                let sp = sp.clone();
+                hs.push(std::thread::spawn(move || {
+                    let mut p = None;
+                    let o = run_case(&sp, true, &mut p, &data, false, limit_s);
+                    if let Some(mut p) = p {
+                        let _ = p.stdin.write_all(b"quit\n");
+                        let _ = p.child.wait();
+                    }
+                    !o.ok && o.inconclusive.is_none()
+                }));
+            }
+            handles.push((kid, what, hs));
+        }
+        for (kid, what, hs) in handles {
+            let checked = hs.len();
+            let mut still = false;
+            for h in hs {
+                still |= h.join().unwrap_or(false);
             }
             known_out.push(json!({"id": kid, "what": what, "still_fails": still, "replays_checked": checked}));
-        }
-        if let Some(mut p) = p {
-            let _ = p.stdin.write_all(b"quit\n");
-            let _ = p.child.wait();
         }
     }
 
